@@ -489,6 +489,7 @@ func TestVerifC18(t *testing.T) {
 			p.name, p.forge = "forged-timestamps", 25
 			p.reconf = 4 // NoDelay (incl. "leave unchanged" arguments and mode switches, boundary B4) / WndSize mid-life
 			p.keepMode = i%2 == 0
+			p.slowTx = 50
 			return p
 		},
 		nontriv: func(info coreCaseInfo, s *coreSim) bool { return info.forged || info.retrans },
